@@ -28,7 +28,8 @@ func (c04) Meta() fw.Meta {
 			"oracle: closed-form shape (error / absent / from, until, step, count, i-th time) computed from layout, id, window and clock only; the three files must give the same shape; the whole product is repeated with a reader clock BEHIND the write clock. " +
 			"non-trivial = case observed an absent result, a degenerate-window extension and a clamped window; distinct by (layout, clock)." +
 			" Also: fetches with the default clock (now=0) while the settable clock TICKS on every reading - the result must be the contract shape at one of the instants handed out; every 6th case repeats 24 fetches through the real server (single scheduler thread, socket writes delayed by 20 ms via strace, six other clients reading same-layout files)." +
-			" The remote leg runs with the process-local time zone set to UTC, +9 h, -5 h or +5:30.",
+			" The remote leg runs with the process-local time zone set to UTC, +9 h, -5 h or +5:30." +
+			" In the reader-clock-behind pass every fetched value is compared with what the ring holds for exactly that instant.",
 		Assumptions: []string{
 			"clock domain: maxRetention + 2*maxStep <= now and now + 2*maxStep < 2^32",
 			"the Fetch() convenience wrapper is driven through the library's settable clock whispertool.Now (one worker process = one clock)",
